@@ -164,8 +164,12 @@ func (e *p2pEnv) sessionCase(prop string, from, to uint64, chunk uint64, ps []se
 	ex.VerifSetTrackedPeers(ids...)
 	ctx, cancel := context.WithTimeout(context.Background(), time.Duration(timeoutMs)*time.Millisecond)
 	var fromH *vhdr.Header
-	if from >= 1 && int(from) <= len(e.chain) {
+	if from >= 1 && from <= uint64(len(e.chain)) {
 		fromH = e.chain[from-1]
+	} else if from >= 1<<63 {
+		// a trusted header at the far end of the height space
+		last := e.chain[len(e.chain)-1]
+		fromH = &vhdr.Header{Chain: last.Chain, H: from, T: last.T, Salt: last.Salt}
 	}
 	type res struct {
 		hs      []*vhdr.Header
@@ -306,6 +310,11 @@ func runSession(prop, tier string, r *rng) {
 		for _, ft := range [][2]uint64{{10, 11}, {10, 10}, {10, 5}, {10, 0}, {1, 2}} {
 			e.sessionCase(prop, ft[0], ft[1], 4, []sessPeer{{have: 100}}, 400)
 		}
+		// ... also at the top of the height space, where from.Height()+1 wraps to 0
+		for _, to := range []uint64{1, 5, ^uint64(0)} {
+			e.sessionCase(prop, ^uint64(0), to, 4, []sessPeer{{have: 100}}, 400)
+		}
+		e.sessionCase(prop, ^uint64(0)-1, ^uint64(0), 4, []sessPeer{{have: 100}}, 400)
 		// the far ends of `to`: an error (or what the peers have), never a panic
 		for _, to := range []uint64{^uint64(0), ^uint64(0) - 1, 1 << 63} { // (smaller huge values would really be allocated)
 			e.sessionCase(prop, 10, to, 4, []sessPeer{{have: 100}}, 400)
